@@ -109,6 +109,11 @@ def instances(tier):
         names = [n["name"] for n in shape["nodes"] if n["kind"] != "Source"]
         out.append(Instance("C02", "sys_common:s_run", dict(shape=shape, oracle="c02", opts={"rt": names[-2:], "ta": True}),
                             name="S/" + sid, uf=True, cover=["solved"], weight=20, max_paths=3000))
+    from ..shapes import variants as _variants
+    for sid, shape in _variants().items():
+        if None is not None and sid not in None:
+            continue
+        out.append(Instance("C02", "sys_common:s_run", dict(shape=shape, oracle="c02"), name="S/var/" + sid, uf=True, cover=["solved"], weight=20))
     if tier == "thorough":
         from ..shapes import pair_cover, enumerate_trees
         for sid, shape in enumerate_trees(3).items():
